@@ -264,7 +264,8 @@ def execModel (w : World) (toks : List String) (hint : String) : World × String
       let r := toString' stdFmts p (if isNull then none else some (pattern capN)) claimed
       let p' := r.1
       let m := if isNull then "NULL" else memOut r.2.2.2.1
-      (setP w k p', s!"{r.2.1.toNat} z{r.2.2.1} m{m} e{errNum p'.err} d{getDepth p'} u{p'.used}" ++ (if r.2.2.2.2 || p'.fault then " FAULT" else ""))
+      let x := if r.2.1 && !isNull && r.2.2.1 + 1 ≤ capN then memOut (r.2.2.2.1.extract 0 (r.2.2.1 + 1)) else "-"
+      (setP w k p', s!"{r.2.1.toNat} z{r.2.2.1} m{m} x{x} e{errNum p'.err} d{getDepth p'} u{p'.used}" ++ (if r.2.2.2.2 || p'.fault then " FAULT" else ""))
   -- to_string into a destination of 2 GiB + 4 KiB: by `to_string_protocol` any sufficient capacity gives the same answer,
   -- so the model runs it with a destination that is just large enough
   | ["tsH"] => withP fun p =>
@@ -488,7 +489,7 @@ def textOracle (o : OState) (po : POracle) (toks : List String) (impl : String) 
      | some v =>
        let n := (render stdFmts v).length
        if r != "1" || (dropPrefix z 1).toNat! != n then o.flag "C13" s!"capacity 2^31+4096 > text length {n}: expected ret 1 size {n}, got ret {r} size {z}" else o)
-  | "ts" :: cap :: rest, r :: z :: m :: _ =>
+  | "ts" :: cap :: rest, r :: z :: m :: xfield :: _ =>
     let o := { o with nTextJudged := o.nTextJudged + 1 }
     let isNull := cap == "NULL"
     let capN := if isNull then 0 else cap.toNat!
@@ -506,12 +507,12 @@ def textOracle (o : OState) (po : POracle) (toks : List String) (impl : String) 
           (if r != "1" || zN != n then o.flag "C13" s!"capacity {claimed} > text length {n}: expected ret 1 size {n}, got ret {r} size {zN}" else o)
       -- nothing stored at or beyond the claimed capacity; on success the text and its NUL
       if isNull then o else
-      let expect : Array UInt8 :=
-        if claimed > n then (text ++ [0] ++ List.replicate (capN - n - 1) 0xAA).toArray
-        else #[]
-      let o := if claimed > n && claimed ≤ capN && mem != memOut expect then
-          (o.flag "C14" s!"text differs from the reference rendering: got {mem} want {memOut expect}").flag
-            "C13" s!"capacity {claimed} > text length {n}: the destination does not hold the text followed by NUL: got {mem} want {memOut expect}" else o
+      -- the text and its terminator (what lies after the terminator inside the capacity is not specified by C13/C14)
+      let expect : Array UInt8 := (text ++ [0]).toArray
+      let gotx := dropPrefix xfield 1
+      let o := if claimed > n && claimed ≤ capN && gotx != memOut expect then
+          (o.flag "C14" s!"text differs from the reference rendering: got {gotx} want {memOut expect}").flag
+            "C13" s!"capacity {claimed} > text length {n}: the destination does not hold the text followed by NUL: got {gotx} want {memOut expect}" else o
       if capN ≤ 160 && claimed ≤ capN then
         let got := parseHex mem
         let tailOk := (List.range (capN - claimed)).all fun i => got.getD (claimed + i) 0 == 0xAA
